@@ -166,11 +166,12 @@ Definition c11_out_in_degrees (s : c11_system) (in_radians : bool) : bool :=
   match s with C11Spherical => negb in_radians | C11Cartesian => false end.
 
 (* the radius handed to the sklearn tree, in tree units:
-   BallTree.query_radius: spherical -> np.deg2rad(r) whatever in_radians is; cartesian -> r
+   BallTree.query_radius: spherical -> min(np.deg2rad(r), np.pi) whatever in_radians is (no
+     great-circle distance exceeds pi; `pi` = the double np.pi in tree units); cartesian -> r
    KDTree.query_radius  : r unchanged (for spherical trees that is radians) *)
-Definition c11_radius_units (num T : Z) (t : c11_treetype) (s : c11_system) (r : Z) : Z :=
+Definition c11_radius_units (num T pi : Z) (t : c11_treetype) (s : c11_system) (r : Z) : Z :=
   match s, t with
-  | C11Spherical, C11Ball => c11_deg2rad num r
+  | C11Spherical, C11Ball => Z.min (c11_deg2rad num r) pi
   | C11Spherical, C11KD => c11_rad_units T r
   | C11Cartesian, _ => r
   end.
@@ -184,13 +185,13 @@ Definition c11_query (num T : Z) (g : c11_grid) (kd : c11_kind) (s : c11_system)
        | Some pq => Some (map (fun p => c11_knn (c11_keys m (c11_tree_coords num g kd s) p) k) pq)
        end.
 
-Definition c11_query_radius (num T : Z) (t : c11_treetype) (g : c11_grid) (kd : c11_kind) (s : c11_system)
+Definition c11_query_radius (num T pi : Z) (t : c11_treetype) (g : c11_grid) (kd : c11_kind) (s : c11_system)
            (m : c11_metric) (q : list c11_pt) (in_radians : bool) (r : Z) : option (list (list (Z * nat))) :=
   if r <? 0 then None
   else match c11_prepare num T s m q in_radians with
        | None => None
        | Some pq =>
-           let rk := c11_rkey m (c11_radius_units num T t s r) in
+           let rk := c11_rkey m (c11_radius_units num T pi t s r) in
            Some (map (fun p => c11_within (c11_keys m (c11_tree_coords num g kd s) p) rk) pq)
        end.
 
